@@ -87,6 +87,24 @@ class Design:
     self.next_id += 1
     return self.next_id - 1
 
+  # hierarchy: component names are paths ('' = top, 'c0', 'c0.g0')
+  @staticmethod
+  def parent_of(comp):
+    if comp == '': return None
+    return comp.rsplit('.', 1)[0] if '.' in comp else ''
+
+  def children_of(self, comp):
+    return [c for c in self.comps if c != '' and self.parent_of(c) == comp]
+
+  def can_read(self, comp, s):
+    """a block (or connection) hosted in comp may read s: its own signals and its direct children's out ports"""
+    return s.comp == comp or (s.comp != '' and self.parent_of(s.comp) == comp and s.kind == 'out')
+
+  def can_write(self, comp, s):
+    """... may drive s: its own wires / out ports and its direct children's in ports"""
+    if s.name == 'reset': return False
+    return (s.comp == comp and s.kind in ('wire', 'out')) or (s.comp != '' and self.parent_of(s.comp) == comp and s.kind == 'in')
+
   def free_ranges(self, comp_filter):
     """undriven (sig, lo, w) pieces of signals writable from a component"""
     out = []
@@ -140,9 +158,7 @@ class Design:
     """available ranges a block hosted in `comp` may read: its own signals and its children's out ports"""
     out = []
     for (g, lo, w) in self.avail:
-      s = self.sigs[g]
-      if s.comp == comp: out.append((g, lo, w))
-      elif comp == '' and s.comp in self.comps['']['children'] and s.kind == 'out': out.append((g, lo, w))
+      if self.can_read(comp, self.sigs[g]): out.append((g, lo, w))
     # coalesce adjacent available pieces of one signal (inside one leaf field) so that a read may span several
     # separately written slices, or strictly contain one of them
     merged = []
@@ -184,7 +200,10 @@ class Design:
     """python expression for range r seen from component comp"""
     g, lo, w = r
     s = self.sigs[g]
-    base = 's.' + (s.name if s.comp == comp else s.path)
+    if s.comp == comp: base = 's.' + s.name
+    else:
+      rel = s.comp[len(comp) + 1:] if comp else s.comp      # the signal lives in a descendant of comp
+      base = f's.{rel}.{s.name}'
     if lo == 0 and w == s.width: return base
     if s.stype is not None:
       named = s.stype.named()
@@ -233,7 +252,7 @@ class Design:
         for t in sg.stype.all_types():
           if t not in types: types.append(t)
     for t in types: out += t.py_source() + ['']
-    order = [c for c in self.comps if c != ''] + ['']
+    order = sorted([c for c in self.comps], key=lambda c: (-c.count('.') - (1 if c else 0), c))
     for comp in order:
       cls = self.cls_name(comp)
       out += [f'class {cls}( Component ):', '  def construct( s ):']
@@ -251,15 +270,15 @@ class Design:
           out.append(f'    s.{base} = [ {ctor}( {ty} ) for _ in range({n}) ]')
         else:
           out.append(f'    s.{s.name} = {ctor}( {ty} )')
-      if comp == '':
-        for ch in self.comps['']['children']:
-          out.append(f'    s.{ch} = {self.cls_name(ch)}()')
-        for (rd, wr, flipped, style) in self.conns:
-          a, b = self.ref('', rd), self.ref('', wr)
-          ra, rb = rd, wr
-          if flipped: a, b, ra, rb = b, a, rb, ra
-          whole = (ra[1] == 0 and ra[2] == self.sigs[ra[0]].width)     # `x.f //= y` / `x[a:b] //= y` are not valid Python for signals
-          out.append(f'    {a} //= {b}' if (style == 0 and whole) else f'    connect( {a}, {b} )')
+      for ch in self.children_of(comp):
+        out.append(f'    s.{ch.rsplit(".", 1)[-1]} = {self.cls_name(ch)}()')
+      for (rd, wr, flipped, style, host) in self.conns:
+        if host != comp: continue
+        a, b = self.ref(comp, rd), self.ref(comp, wr)
+        ra, rb = rd, wr
+        if flipped: a, b, ra, rb = b, a, rb, ra
+        whole = (ra[1] == 0 and ra[2] == self.sigs[ra[0]].width)     # `x.f //= y` / `x[a:b] //= y` are not valid Python for signals
+        out.append(f'    {a} //= {b}' if (style == 0 and whole) else f'    connect( {a}, {b} )')
       for b in self.blocks:
         if b['comp'] == comp: out += self.py_block(b)
       byid = {b['id']: b for b in self.blocks}
@@ -271,7 +290,7 @@ class Design:
     return '\n'.join(out)
 
   def cls_name(self, comp):
-    return f'Gen{self.uid}_{comp or "Top"}'
+    return f'Gen{self.uid}_{comp.replace(".", "_") or "Top"}'
 
 def generate(rng, max_blocks=8, with_children=True, with_regs=True, wide=False, max_regs=3, min_regs=0, structs=None, many_wires=False):
   """an acyclic, single-writer design"""
@@ -313,12 +332,21 @@ def generate(rng, max_blocks=8, with_children=True, with_regs=True, wide=False, 
       for i in range(rng.randint(1, 2)): d.new_sig(cn, f'in{i}', W(), 'in', ST())
       for i in range(rng.randint(1, 2)): d.new_sig(cn, f'out{i}', W(), 'out', ST())
       for i in range(rng.randint(0, 2)): d.new_sig(cn, f'w{i}', W(), 'wire', ST())
-  # inputs are available; reset of children is a net from the top reset (implicit in PyMTL)
+      if rng.random() < 0.35:     # a grandchild: nets and blocks then cross two hierarchy levels
+        gn = f'{cn}.g0'
+        children.append(gn)
+        d.comps[gn] = {}
+        d.new_sig(gn, 'reset', 1, 'in')
+        for i in range(rng.randint(1, 2)): d.new_sig(gn, f'in{i}', W(), 'in', ST())
+        for i in range(rng.randint(1, 2)): d.new_sig(gn, f'out{i}', W(), 'out', ST())
+        if rng.random() < 0.5: d.new_sig(gn, 'w0', W(), 'wire', ST())
+  # inputs are available; the reset of every component is in one net driven by the top reset (implicit in PyMTL)
   for s in d.sigs:
     if s.comp == '' and s.kind == 'in': mark_available(d, s)
   for cn in children:
     r = next(s for s in d.sigs if s.comp == cn and s.name == 'reset')
-    add_net(d, (r.idx, 0, 1), (top_reset.idx, 0, 1), implicit=True)
+    pr = next(s for s in d.sigs if s.comp == d.parent_of(cn) and s.name == 'reset')
+    add_net(d, (r.idx, 0, 1), (pr.idx, 0, 1), implicit=True)
   # registers: some wires / outs of any component are written by ff blocks
   if with_regs:
     cands = [s for s in d.sigs if s.kind in ('wire', 'out')]
@@ -336,8 +364,8 @@ def generate(rng, max_blocks=8, with_children=True, with_regs=True, wide=False, 
     if children and rng.random() < 0.4: comp = rng.choice(children)
     if stypes and rng.random() < 0.25:
       make_struct_copy(d, comp)
-    elif choice < 0.3 and comp == '':
-      make_net(d)
+    elif choice < 0.3 and (comp == '' or d.children_of(comp)):
+      make_net(d, comp)
     else:
       make_comb(d, comp)
   # ff blocks (may read anything readable from their host, including signals driven "later")
@@ -359,21 +387,17 @@ def mark_available(d, s):
 def make_struct_copy(d, comp):
   """y @= x (block) or y //= x (net, top only) between two signals of the same struct type"""
   rng = d.rng
-  if comp == '':
-    ok = lambda s: (s.comp == '' and s.kind in ('wire', 'out')) or (s.comp != '' and s.kind == 'in' and s.name != 'reset')
-  else:
-    ok = lambda s: s.comp == comp and s.kind in ('wire', 'out')
+  ok = lambda s: d.can_write(comp, s)
   drv = {g for (g, _, _) in d.driven}
   ys = [s for s in d.sigs if s.stype is not None and ok(s) and s.idx not in drv and s.idx not in d.regs]
   rng.shuffle(ys)
   for y in ys:
-    xs = [d.sigs[g] for g in d.full_struct if d.sigs[g].stype is y.stype and g != y.idx and
-          (d.sigs[g].comp == comp or (comp == '' and d.sigs[g].comp in d.comps['']['children'] and d.sigs[g].kind == 'out'))]
+    xs = [d.sigs[g] for g in d.full_struct if d.sigs[g].stype is y.stype and g != y.idx and d.can_read(comp, d.sigs[g])]
     if not xs: continue
     x = rng.choice(xs)
     t, src = (y.idx, 0, y.width), (x.idx, 0, x.width)
-    if comp == '' and rng.random() < 0.5:
-      add_net(d, t, src, flipped=rng.random() < 0.5, style=rng.randint(0, 1))
+    if rng.random() < 0.5:
+      add_net(d, t, src, flipped=rng.random() < 0.5, style=rng.randint(0, 1), host=comp)
       d.avail.pop()        # add_net marked the whole range; replace by per-leaf availability
     else:
       bid = d.new_id()
@@ -382,7 +406,7 @@ def make_struct_copy(d, comp):
     mark_available(d, y)
     return
 
-def add_net(d, reader, writer, implicit=False, flipped=False, style=0):
+def add_net(d, reader, writer, implicit=False, flipped=False, style=0, host=''):
   root = d.net_root.get(writer, writer)
   n = d.nets.get(root)
   if n is None:
@@ -392,32 +416,28 @@ def add_net(d, reader, writer, implicit=False, flipped=False, style=0):
   d.net_root[reader] = root
   d.driven.append(reader)
   d.avail.append(reader)
-  if not implicit: d.conns.append((reader, writer, flipped, style))
+  if not implicit: d.conns.append((reader, writer, flipped, style, host))
 
-def make_net(d):
+def make_net(d, comp=''):
   rng = d.rng
-  # reader: an undriven range writable by a connection made in top: top wires/outs, child in ports
-  free = d.free_ranges(lambda s: (s.comp == '' and s.kind in ('wire', 'out')) or (s.comp != '' and s.kind == 'in' and s.name != 'reset'))
+  # reader: an undriven range writable by a connection made in comp: its wires/outs, its children's in ports
+  free = d.free_ranges(lambda s: d.can_write(comp, s))
   if not free: return
   g, lo, w = rng.choice(free)
   if w > 1 and rng.random() < 0.4:
     w2 = rng.randint(1, w); lo += rng.randint(0, w - w2); w = w2
-  # writer: an available range of the same width readable from top
-  cands = [r for r in d.readable_from('') if r[2] >= w]
+  # writer: an available range of the same width readable from comp
+  cands = [r for r in d.readable_from(comp) if r[2] >= w]
   if not cands: return
   wg, wlo, ww = rng.choice(cands)
   off = rng.choice([0, ww - w, rng.randint(0, ww - w)])
   writer = (wg, wlo + off, w)
   if wg == g: return
-  add_net(d, (g, lo, w), writer, flipped=rng.random() < 0.5, style=rng.randint(0, 1))
+  add_net(d, (g, lo, w), writer, flipped=rng.random() < 0.5, style=rng.randint(0, 1), host=comp)
 
 def make_comb(d, comp):
   rng = d.rng
-  if comp == '':
-    ok = lambda s: (s.comp == '' and s.kind in ('wire', 'out')) or (s.comp != '' and s.kind == 'in' and s.name != 'reset')
-  else:
-    ok = lambda s: s.comp == comp and s.kind in ('wire', 'out')
-  free = d.free_ranges(ok)
+  free = d.free_ranges(lambda s: d.can_write(comp, s))
   if not free: return
   readable = d.readable_from(comp)
   if not readable: return
@@ -443,7 +463,7 @@ def make_ff(d, comp, regs):
   # an ff block may read every signal its host can read, whenever it is driven
   readable = []
   for s in d.sigs:
-    if s.comp == comp or (comp == '' and s.comp in d.comps['']['children'] and s.kind == 'out'):
+    if d.can_read(comp, s):
       readable.append((s.idx, 0, s.width))
   reset = next(s for s in d.sigs if s.comp == comp and s.name == 'reset')
   # ranges usable in arithmetic: whole Bits signals and the leaf fields of struct signals
